@@ -15,11 +15,11 @@ import (
 	tacfg "github.com/containers/nri-plugins/pkg/apis/config/v1alpha1/resmgr/policy/topologyaware"
 	"github.com/containers/nri-plugins/pkg/kubernetes"
 	"github.com/containers/nri-plugins/pkg/log/klogcontrol"
-	"k8s.io/klog/v2"
 	"github.com/containers/nri-plugins/pkg/resmgr"
 	libmem "github.com/containers/nri-plugins/pkg/resmgr/lib/memory"
 	"github.com/containers/nri-plugins/pkg/resmgr/policy"
 	metav1 "k8s.io/apimachinery/pkg/apis/meta/v1"
+	"k8s.io/klog/v2"
 
 	"verif/harness/sysgen"
 )
@@ -31,11 +31,11 @@ const (
 
 // Config is the harness' configuration value: exactly one of TA / Bln is set.
 type Config struct {
-	Policy string           `json:"policy"`
-	TA     *tacfg.Config    `json:"ta,omitempty"`
-	Bln    *blncfg.Config   `json:"bln,omitempty"`
-	Gen    int64            `json:"gen"`
-	Note   string           `json:"note,omitempty"` // how it was generated (e.g. rejection kind)
+	Policy string         `json:"policy"`
+	TA     *tacfg.Config  `json:"ta,omitempty"`
+	Bln    *blncfg.Config `json:"bln,omitempty"`
+	Gen    int64          `json:"gen"`
+	Note   string         `json:"note,omitempty"` // how it was generated (e.g. rejection kind)
 }
 
 func (c *Config) Clone() *Config {
